@@ -41,6 +41,19 @@ func genC04(o *hx.Out, tier string) {
 				// rendered later: the payload handed out must still be what it was after other calls
 				o.AddLater("encode", func() string { return "ok " + hx.Hex(raw.Payload) }, "mwrite", gs, b2s(v2), hx.Value(m))
 				o.Add("roundtrip", implReadMsg(mrw, raw.Payload, v2), "mread", gs, b2s(v2), hx.Hex(raw.Payload))
+				// the caller reads from a buffer of its own and uses that buffer for something else
+				// afterwards: the message it was given is rendered later and must not have changed
+				{
+					own := append([]byte(nil), raw.Payload...)
+					want := hx.Hex(own)
+					dec, err := mrw.Read(&message.MessageRaw{ID: 0, Payload: own}, v2)
+					for i := range own {
+						own[i] = byte(0x41 + i%26)
+					}
+					if err == nil {
+						o.AddLater("decode, the buffer reused afterwards", func() string { return "ok " + hx.Value(dec) }, "mread", gs, b2s(v2), want)
+					}
+				}
 				if held != nil {
 					// the result of the previous Write, looked at again after this Write and this Read
 					o.Add("encode, result kept across the next calls", "ok "+hx.Hex(held.Payload), "mwrite", gs, b2s(heldV2), hx.Value(heldMsg))
